@@ -501,6 +501,18 @@ fn any_kind_no_arr() -> Kind {
         _ => Kind::Func,
     }
 }
+fn any_kind_no_str() -> Kind {
+    let k: u8 = kani::any();
+    kani::assume(k < 6);
+    match k {
+        0 => Kind::Null,
+        1 => Kind::Bool,
+        2 => Kind::Num,
+        3 => Kind::Arr,
+        4 => Kind::Obj,
+        _ => Kind::Func,
+    }
+}
 fn any_binop() -> BinaryOpType {
     use BinaryOpType::*;
     let k: u8 = kani::any();
@@ -576,18 +588,16 @@ fn sym(op: BinaryOpType) -> &'static str {
     match op { Mul => "*", Div => "/", Mod => "%", Add => "+", Sub => "-", Lhs => "<<", Rhs => ">>", Lt => "<", Gt => ">", Lte => "<=", Gte => ">=", BitAnd => "&", BitOr => "|", BitXor => "^", Eq => "==", Neq => "!=", And => "&&", Or => "||", In => "in" }
 }
 
-fn op_table_case(op: BinaryOpType) {
-    // array/array comparison and equality recurse into the elements (not decided within the caps):
-    // for those six rows the array kind appears on one side only, chosen by a symbolic bit *before*
-    // the values are built, so the array/array arm is syntactically unreachable
-    let (ka, kb) = if matches!(op, BinaryOpType::Eq | BinaryOpType::Neq | BinaryOpType::Lt | BinaryOpType::Gt | BinaryOpType::Lte | BinaryOpType::Gte) {
-        if kani::any() {
-            (any_kind(), any_kind_no_arr())
-        } else {
-            (any_kind_no_arr(), any_kind())
-        }
-    } else {
-        (any_kind(), any_kind())
+/// `side`: 0 = both operands of any kind; 1 = arrays only on the left; 2 = arrays only on the right
+/// (array/array comparison and equality recurse into the elements and are not decided within the caps, so
+/// the six comparison rows come as two harnesses each in which that arm is syntactically unreachable);
+/// 3 = no strings (the `*` row: string repetition is a jrsonnet extension outside the table)
+fn op_table_case(op: BinaryOpType, side: u8) {
+    let (ka, kb) = match side {
+        1 => (any_kind(), any_kind_no_arr()),
+        2 => (any_kind_no_arr(), any_kind()),
+        3 => (any_kind_no_str(), any_kind_no_str()),
+        _ => (any_kind(), any_kind()),
     };
     let a = any_val_of(ka, 1);
     let b = any_val_of(kb, 2);
@@ -609,54 +619,67 @@ fn op_table_case(op: BinaryOpType) {
     }
     kani::cover!(want == Some(false) && ka == kb, "same-kind operands rejected reached");
     kani::cover!(matches!(op, BinaryOpType::Eq | BinaryOpType::Neq) || (want == Some(false) && ka != kb), "mixed-kind operands rejected reached");
+    let _ = side;
 }
 macro_rules! op_table {
-    ($name:ident, $op:ident) => {
+    ($name:ident, $op:ident, $side:literal) => {
         #[kani::proof]
         #[kani::unwind(3)]
         pub fn $name() {
-            op_table_case(BinaryOpType::$op);
+            op_table_case(BinaryOpType::$op, $side);
         }
     };
 }
-//@harness name=optab_mul tier=quick timeout=600 unwind=3 desc="operator type table row `*`: for every pair of operand kinds the application fails exactly when the Jsonnet operator table does not define it" bounds="7x7 operand kinds (array/array excluded for the comparison and equality rows); numbers: integers -128..=127; strings: <= 2 letters of a,b,c; arrays: <= 1 number; objects/functions: opaque"
-op_table!(optab_mul, Mul);
-//@harness name=optab_div tier=quick timeout=600 unwind=3 desc="operator type table row `/`: for every pair of operand kinds the application fails exactly when the Jsonnet operator table does not define it" bounds="7x7 operand kinds (array/array excluded for the comparison and equality rows); numbers: integers -128..=127; strings: <= 2 letters of a,b,c; arrays: <= 1 number; objects/functions: opaque"
-op_table!(optab_div, Div);
-//@harness name=optab_mod tier=quick timeout=600 unwind=3 desc="operator type table row `%`: for every pair of operand kinds the application fails exactly when the Jsonnet operator table does not define it" bounds="7x7 operand kinds (array/array excluded for the comparison and equality rows); numbers: integers -128..=127; strings: <= 2 letters of a,b,c; arrays: <= 1 number; objects/functions: opaque"
-op_table!(optab_mod, Mod);
-//@harness name=optab_add tier=quick timeout=600 unwind=3 desc="operator type table row `+`: for every pair of operand kinds the application fails exactly when the Jsonnet operator table does not define it" bounds="7x7 operand kinds (array/array excluded for the comparison and equality rows); numbers: integers -128..=127; strings: <= 2 letters of a,b,c; arrays: <= 1 number; objects/functions: opaque"
-op_table!(optab_add, Add);
-//@harness name=optab_sub tier=quick timeout=600 unwind=3 desc="operator type table row `-`: for every pair of operand kinds the application fails exactly when the Jsonnet operator table does not define it" bounds="7x7 operand kinds (array/array excluded for the comparison and equality rows); numbers: integers -128..=127; strings: <= 2 letters of a,b,c; arrays: <= 1 number; objects/functions: opaque"
-op_table!(optab_sub, Sub);
-//@harness name=optab_shl tier=quick timeout=600 unwind=3 desc="operator type table row `<<`: for every pair of operand kinds the application fails exactly when the Jsonnet operator table does not define it" bounds="7x7 operand kinds (array/array excluded for the comparison and equality rows); numbers: integers -128..=127; strings: <= 2 letters of a,b,c; arrays: <= 1 number; objects/functions: opaque"
-op_table!(optab_shl, Lhs);
-//@harness name=optab_shr tier=quick timeout=600 unwind=3 desc="operator type table row `>>`: for every pair of operand kinds the application fails exactly when the Jsonnet operator table does not define it" bounds="7x7 operand kinds (array/array excluded for the comparison and equality rows); numbers: integers -128..=127; strings: <= 2 letters of a,b,c; arrays: <= 1 number; objects/functions: opaque"
-op_table!(optab_shr, Rhs);
-//@harness name=optab_lt tier=quick timeout=600 unwind=3 desc="operator type table row `<`: for every pair of operand kinds the application fails exactly when the Jsonnet operator table does not define it" bounds="7x7 operand kinds (array/array excluded for the comparison and equality rows); numbers: integers -128..=127; strings: <= 2 letters of a,b,c; arrays: <= 1 number; objects/functions: opaque"
-op_table!(optab_lt, Lt);
-//@harness name=optab_gt tier=quick timeout=600 unwind=3 desc="operator type table row `>`: for every pair of operand kinds the application fails exactly when the Jsonnet operator table does not define it" bounds="7x7 operand kinds (array/array excluded for the comparison and equality rows); numbers: integers -128..=127; strings: <= 2 letters of a,b,c; arrays: <= 1 number; objects/functions: opaque"
-op_table!(optab_gt, Gt);
-//@harness name=optab_lte tier=quick timeout=600 unwind=3 desc="operator type table row `<=`: for every pair of operand kinds the application fails exactly when the Jsonnet operator table does not define it" bounds="7x7 operand kinds (array/array excluded for the comparison and equality rows); numbers: integers -128..=127; strings: <= 2 letters of a,b,c; arrays: <= 1 number; objects/functions: opaque"
-op_table!(optab_lte, Lte);
-//@harness name=optab_gte tier=quick timeout=600 unwind=3 desc="operator type table row `>=`: for every pair of operand kinds the application fails exactly when the Jsonnet operator table does not define it" bounds="7x7 operand kinds (array/array excluded for the comparison and equality rows); numbers: integers -128..=127; strings: <= 2 letters of a,b,c; arrays: <= 1 number; objects/functions: opaque"
-op_table!(optab_gte, Gte);
-//@harness name=optab_bitand tier=quick timeout=600 unwind=3 desc="operator type table row `&`: for every pair of operand kinds the application fails exactly when the Jsonnet operator table does not define it" bounds="7x7 operand kinds (array/array excluded for the comparison and equality rows); numbers: integers -128..=127; strings: <= 2 letters of a,b,c; arrays: <= 1 number; objects/functions: opaque"
-op_table!(optab_bitand, BitAnd);
-//@harness name=optab_bitor tier=quick timeout=600 unwind=3 desc="operator type table row `|`: for every pair of operand kinds the application fails exactly when the Jsonnet operator table does not define it" bounds="7x7 operand kinds (array/array excluded for the comparison and equality rows); numbers: integers -128..=127; strings: <= 2 letters of a,b,c; arrays: <= 1 number; objects/functions: opaque"
-op_table!(optab_bitor, BitOr);
-//@harness name=optab_bitxor tier=quick timeout=600 unwind=3 desc="operator type table row `^`: for every pair of operand kinds the application fails exactly when the Jsonnet operator table does not define it" bounds="7x7 operand kinds (array/array excluded for the comparison and equality rows); numbers: integers -128..=127; strings: <= 2 letters of a,b,c; arrays: <= 1 number; objects/functions: opaque"
-op_table!(optab_bitxor, BitXor);
-//@harness name=optab_eq tier=quick timeout=600 unwind=3 desc="operator type table row `==`: for every pair of operand kinds the application fails exactly when the Jsonnet operator table does not define it" bounds="7x7 operand kinds (array/array excluded for the comparison and equality rows); numbers: integers -128..=127; strings: <= 2 letters of a,b,c; arrays: <= 1 number; objects/functions: opaque"
-op_table!(optab_eq, Eq);
-//@harness name=optab_neq tier=quick timeout=600 unwind=3 desc="operator type table row `!=`: for every pair of operand kinds the application fails exactly when the Jsonnet operator table does not define it" bounds="7x7 operand kinds (array/array excluded for the comparison and equality rows); numbers: integers -128..=127; strings: <= 2 letters of a,b,c; arrays: <= 1 number; objects/functions: opaque"
-op_table!(optab_neq, Neq);
-//@harness name=optab_and tier=quick timeout=600 unwind=3 desc="operator type table row `&&`: for every pair of operand kinds the application fails exactly when the Jsonnet operator table does not define it" bounds="7x7 operand kinds (array/array excluded for the comparison and equality rows); numbers: integers -128..=127; strings: <= 2 letters of a,b,c; arrays: <= 1 number; objects/functions: opaque"
-op_table!(optab_and, And);
-//@harness name=optab_or tier=quick timeout=600 unwind=3 desc="operator type table row `||`: for every pair of operand kinds the application fails exactly when the Jsonnet operator table does not define it" bounds="7x7 operand kinds (array/array excluded for the comparison and equality rows); numbers: integers -128..=127; strings: <= 2 letters of a,b,c; arrays: <= 1 number; objects/functions: opaque"
-op_table!(optab_or, Or);
-//@harness name=optab_in tier=quick timeout=600 unwind=3 desc="operator type table row `in`: for every pair of operand kinds the application fails exactly when the Jsonnet operator table does not define it" bounds="7x7 operand kinds (array/array excluded for the comparison and equality rows); numbers: integers -128..=127; strings: <= 2 letters of a,b,c; arrays: <= 1 number; objects/functions: opaque"
-op_table!(optab_in, In);
+//@harness name=optab_mul tier=quick timeout=600 unwind=3 desc="operator type table row `*`: for every pair of operand kinds the application fails exactly when the Jsonnet operator table does not define it" bounds="7x7 operand kinds (no string operands: string repetition is a jrsonnet extension outside the table); numbers: integers -128..=127; strings: <= 2 letters of a,b,c; arrays: <= 1 number; objects/functions: opaque"
+op_table!(optab_mul, Mul, 3);
+//@harness name=optab_div tier=quick timeout=600 unwind=3 desc="operator type table row `/`: for every pair of operand kinds the application fails exactly when the Jsonnet operator table does not define it" bounds="7x7 operand kinds; numbers: integers -128..=127; strings: <= 2 letters of a,b,c; arrays: <= 1 number; objects/functions: opaque"
+op_table!(optab_div, Div, 0);
+//@harness name=optab_mod tier=quick timeout=600 unwind=3 desc="operator type table row `%`: for every pair of operand kinds the application fails exactly when the Jsonnet operator table does not define it" bounds="7x7 operand kinds; numbers: integers -128..=127; strings: <= 2 letters of a,b,c; arrays: <= 1 number; objects/functions: opaque"
+op_table!(optab_mod, Mod, 0);
+//@harness name=optab_add tier=quick timeout=600 unwind=3 desc="operator type table row `+`: for every pair of operand kinds the application fails exactly when the Jsonnet operator table does not define it" bounds="7x7 operand kinds; numbers: integers -128..=127; strings: <= 2 letters of a,b,c; arrays: <= 1 number; objects/functions: opaque"
+op_table!(optab_add, Add, 0);
+//@harness name=optab_sub tier=quick timeout=600 unwind=3 desc="operator type table row `-`: for every pair of operand kinds the application fails exactly when the Jsonnet operator table does not define it" bounds="7x7 operand kinds; numbers: integers -128..=127; strings: <= 2 letters of a,b,c; arrays: <= 1 number; objects/functions: opaque"
+op_table!(optab_sub, Sub, 0);
+//@harness name=optab_shl tier=quick timeout=600 unwind=3 desc="operator type table row `<<`: for every pair of operand kinds the application fails exactly when the Jsonnet operator table does not define it" bounds="7x7 operand kinds; numbers: integers -128..=127; strings: <= 2 letters of a,b,c; arrays: <= 1 number; objects/functions: opaque"
+op_table!(optab_shl, Lhs, 0);
+//@harness name=optab_shr tier=quick timeout=600 unwind=3 desc="operator type table row `>>`: for every pair of operand kinds the application fails exactly when the Jsonnet operator table does not define it" bounds="7x7 operand kinds; numbers: integers -128..=127; strings: <= 2 letters of a,b,c; arrays: <= 1 number; objects/functions: opaque"
+op_table!(optab_shr, Rhs, 0);
+//@harness name=optab_bitand tier=quick timeout=600 unwind=3 desc="operator type table row `&`: for every pair of operand kinds the application fails exactly when the Jsonnet operator table does not define it" bounds="7x7 operand kinds; numbers: integers -128..=127; strings: <= 2 letters of a,b,c; arrays: <= 1 number; objects/functions: opaque"
+op_table!(optab_bitand, BitAnd, 0);
+//@harness name=optab_bitor tier=quick timeout=600 unwind=3 desc="operator type table row `|`: for every pair of operand kinds the application fails exactly when the Jsonnet operator table does not define it" bounds="7x7 operand kinds; numbers: integers -128..=127; strings: <= 2 letters of a,b,c; arrays: <= 1 number; objects/functions: opaque"
+op_table!(optab_bitor, BitOr, 0);
+//@harness name=optab_bitxor tier=quick timeout=600 unwind=3 desc="operator type table row `^`: for every pair of operand kinds the application fails exactly when the Jsonnet operator table does not define it" bounds="7x7 operand kinds; numbers: integers -128..=127; strings: <= 2 letters of a,b,c; arrays: <= 1 number; objects/functions: opaque"
+op_table!(optab_bitxor, BitXor, 0);
+//@harness name=optab_and tier=quick timeout=600 unwind=3 desc="operator type table row `&&`: for every pair of operand kinds the application fails exactly when the Jsonnet operator table does not define it" bounds="7x7 operand kinds; numbers: integers -128..=127; strings: <= 2 letters of a,b,c; arrays: <= 1 number; objects/functions: opaque"
+op_table!(optab_and, And, 0);
+//@harness name=optab_or tier=quick timeout=600 unwind=3 desc="operator type table row `||`: for every pair of operand kinds the application fails exactly when the Jsonnet operator table does not define it" bounds="7x7 operand kinds; numbers: integers -128..=127; strings: <= 2 letters of a,b,c; arrays: <= 1 number; objects/functions: opaque"
+op_table!(optab_or, Or, 0);
+//@harness name=optab_in tier=quick timeout=600 unwind=3 desc="operator type table row `in`: for every pair of operand kinds the application fails exactly when the Jsonnet operator table does not define it" bounds="7x7 operand kinds; numbers: integers -128..=127; strings: <= 2 letters of a,b,c; arrays: <= 1 number; objects/functions: opaque"
+op_table!(optab_in, In, 0);
+//@harness name=optab_lt_l tier=quick timeout=900 unwind=3 desc="operator type table row `<`, arrays allowed on the left only" bounds="7x7 operand kinds except array/array; numbers: integers -128..=127; strings: <= 2 letters of a,b,c; arrays: <= 1 number; objects/functions: opaque"
+op_table!(optab_lt_l, Lt, 1);
+//@harness name=optab_lt_r tier=quick timeout=900 unwind=3 desc="operator type table row `<`, arrays allowed on the right only" bounds="7x7 operand kinds except array/array; numbers: integers -128..=127; strings: <= 2 letters of a,b,c; arrays: <= 1 number; objects/functions: opaque"
+op_table!(optab_lt_r, Lt, 2);
+//@harness name=optab_gt_l tier=quick timeout=900 unwind=3 desc="operator type table row `>`, arrays allowed on the left only" bounds="7x7 operand kinds except array/array; numbers: integers -128..=127; strings: <= 2 letters of a,b,c; arrays: <= 1 number; objects/functions: opaque"
+op_table!(optab_gt_l, Gt, 1);
+//@harness name=optab_gt_r tier=quick timeout=900 unwind=3 desc="operator type table row `>`, arrays allowed on the right only" bounds="7x7 operand kinds except array/array; numbers: integers -128..=127; strings: <= 2 letters of a,b,c; arrays: <= 1 number; objects/functions: opaque"
+op_table!(optab_gt_r, Gt, 2);
+//@harness name=optab_lte_l tier=quick timeout=900 unwind=3 desc="operator type table row `<=`, arrays allowed on the left only" bounds="7x7 operand kinds except array/array; numbers: integers -128..=127; strings: <= 2 letters of a,b,c; arrays: <= 1 number; objects/functions: opaque"
+op_table!(optab_lte_l, Lte, 1);
+//@harness name=optab_lte_r tier=quick timeout=900 unwind=3 desc="operator type table row `<=`, arrays allowed on the right only" bounds="7x7 operand kinds except array/array; numbers: integers -128..=127; strings: <= 2 letters of a,b,c; arrays: <= 1 number; objects/functions: opaque"
+op_table!(optab_lte_r, Lte, 2);
+//@harness name=optab_gte_l tier=quick timeout=900 unwind=3 desc="operator type table row `>=`, arrays allowed on the left only" bounds="7x7 operand kinds except array/array; numbers: integers -128..=127; strings: <= 2 letters of a,b,c; arrays: <= 1 number; objects/functions: opaque"
+op_table!(optab_gte_l, Gte, 1);
+//@harness name=optab_gte_r tier=quick timeout=900 unwind=3 desc="operator type table row `>=`, arrays allowed on the right only" bounds="7x7 operand kinds except array/array; numbers: integers -128..=127; strings: <= 2 letters of a,b,c; arrays: <= 1 number; objects/functions: opaque"
+op_table!(optab_gte_r, Gte, 2);
+//@harness name=optab_eq_l tier=quick timeout=900 unwind=3 desc="operator type table row `==`, arrays allowed on the left only" bounds="7x7 operand kinds except array/array; numbers: integers -128..=127; strings: <= 2 letters of a,b,c; arrays: <= 1 number; objects/functions: opaque"
+op_table!(optab_eq_l, Eq, 1);
+//@harness name=optab_eq_r tier=quick timeout=900 unwind=3 desc="operator type table row `==`, arrays allowed on the right only" bounds="7x7 operand kinds except array/array; numbers: integers -128..=127; strings: <= 2 letters of a,b,c; arrays: <= 1 number; objects/functions: opaque"
+op_table!(optab_eq_r, Eq, 2);
+//@harness name=optab_neq_l tier=quick timeout=900 unwind=3 desc="operator type table row `!=`, arrays allowed on the left only" bounds="7x7 operand kinds except array/array; numbers: integers -128..=127; strings: <= 2 letters of a,b,c; arrays: <= 1 number; objects/functions: opaque"
+op_table!(optab_neq_l, Neq, 1);
+//@harness name=optab_neq_r tier=quick timeout=900 unwind=3 desc="operator type table row `!=`, arrays allowed on the right only" bounds="7x7 operand kinds except array/array; numbers: integers -128..=127; strings: <= 2 letters of a,b,c; arrays: <= 1 number; objects/functions: opaque"
+op_table!(optab_neq_r, Neq, 2);
 
 //@harness tier=thorough optional=1 timeout=7200 desc="array/array comparison and equality: element-wise, shorter array first on a common prefix" bounds="arrays of <= 1 small number each, the six comparison operators"
 #[kani::proof]
@@ -704,7 +727,16 @@ pub fn array_compare() {
 #[kani::proof]
 #[kani::unwind(3)]
 pub fn equality_table() {
-    let (ka, kb) = if kani::any() { (any_kind(), any_kind_no_arr()) } else { (any_kind_no_arr(), any_kind()) };
+    equality_table_case(1);
+}
+//@harness tier=quick timeout=900 desc="same, arrays allowed on the right only" bounds="7x7 operand kinds except array/array"
+#[kani::proof]
+#[kani::unwind(3)]
+pub fn equality_table_r() {
+    equality_table_case(2);
+}
+fn equality_table_case(side: u8) {
+    let (ka, kb) = if side == 1 { (any_kind(), any_kind_no_arr()) } else { (any_kind_no_arr(), any_kind()) };
     let a = any_val_of(ka, 1);
     let b = any_val_of(kb, 2);
     let eq = bin(&a, BinaryOpType::Eq, &b);
@@ -744,7 +776,7 @@ pub fn equality_table() {
     }
     assert!(eq.is_ok() == ne.is_ok(), "C13.neq.errors == and != fail together");
     kani::cover!(ka == Kind::Str && kb == Kind::Str && as_bool(&eq) == Some(true), "equal strings reached");
-    kani::cover!(ka == Kind::Arr && kb == Kind::Arr && as_bool(&eq) == Some(false), "unequal arrays reached");
+    kani::cover!((ka == Kind::Arr) != (kb == Kind::Arr), "array against a non-array reached");
 }
 
 //@harness tier=quick timeout=600 desc="unary operators over all kinds: - + ~ need a number, ! needs a boolean, everything else is an error" bounds="4 operators x 7 operand kinds"
